@@ -4,13 +4,18 @@ package c08
 // chunk request arrives in two pieces and a second chunk request is served in between.
 
 import (
+	"bytes"
 	"encoding/base64"
 	"fmt"
 	"io"
 	"net/http"
 	"strings"
+	"sync"
 	"time"
 
+	"github.com/opencontainers/go-digest"
+
+	"cuelabs.dev/go/oci/ociregistry"
 	"cuelabs.dev/go/oci/ociregistry/ocimem"
 	"cuelabs.dev/go/oci/ociregistry/ociserver"
 
@@ -104,4 +109,87 @@ func interleavedChunks(d Directed, v *vt.V) {
 			return
 		}
 	}
+}
+
+// concurrentListings: nothing is being written, so each listing request (tags, catalog, referrers) has
+// one right answer whatever else is in flight: the one it gets when asked alone.
+func concurrentListings(d Directed, v *vt.V) {
+	mem := ocimem.New()
+	ntags := min(max(d.Size, 1), 300)
+	var urls []string
+	for r := 0; r < 6; r++ {
+		repo := fmt.Sprintf("repo%d/%s", r, strings.Repeat("x", r*3+1))
+		var subject digest.Digest
+		for t := 0; t < ntags/(r+1)+1; t++ {
+			m := []byte(fmt.Sprintf(`{"schemaVersion":2,"mediaType":"application/vnd.oci.image.manifest.v1+json","artifactType":"application/x-%d-%d","config":{"mediaType":"application/vnd.oci.empty.v1+json","digest":"sha256:44136fa355b3678a1146ad16f7e8649e94fb4fc21fe77e8310c060f61caaff8a","size":2},"layers":[]%s}`, r, t, func() string {
+				if subject == "" {
+					return ""
+				}
+				return fmt.Sprintf(`,"subject":{"mediaType":"application/vnd.oci.image.manifest.v1+json","digest":%q,"size":1}`, subject)
+			}()))
+			if t == 0 {
+				mem.PushBlob(ctx, repo, ocispecDesc("application/vnd.oci.empty.v1+json", []byte("{}")), bytes.NewReader([]byte("{}")))
+			}
+			desc, err := mem.PushManifest(ctx, repo, fmt.Sprintf("tag-%d-%s-%d", r, strings.Repeat("t", r), t), m, "application/vnd.oci.image.manifest.v1+json")
+			if err != nil {
+				v.Failf("harness", "push manifest: %v", err)
+				return
+			}
+			if t == 0 {
+				subject = desc.Digest
+			}
+		}
+		urls = append(urls, "/v2/"+repo+"/tags/list", "/v2/"+repo+"/tags/list?n=3", fmt.Sprintf("/v2/%s/referrers/%s", repo, subject))
+	}
+	urls = append(urls, "/v2/_catalog", "/v2/_catalog?n=2")
+	srv := memnet.NewServer(ociserver.New(mem, nil))
+	defer srv.Close()
+	client := srv.Client()
+	get := func(u string) (string, error) {
+		resp, err := client.Get(srv.URL + u)
+		if err != nil {
+			return "", err
+		}
+		defer resp.Body.Close()
+		b, err := io.ReadAll(resp.Body)
+		return fmt.Sprintf("%d %s %s", resp.StatusCode, resp.Header.Get("Link"), b), err
+	}
+	want := map[string]string{}
+	for _, u := range urls {
+		b, err := get(u)
+		if err != nil || !strings.HasPrefix(b, "200 ") {
+			v.Failf("harness", "GET %s alone: %.200s %v", u, b, err)
+			return
+		}
+		want[u] = b
+	}
+	var wg sync.WaitGroup
+	var mu sync.Mutex
+	bad := ""
+	for g := 0; g < 8; g++ {
+		wg.Add(1)
+		go func() {
+			defer wg.Done()
+			for i := 0; i < max(d.Iters/20, 5); i++ {
+				u := urls[(g*7+i*3)%len(urls)]
+				b, err := get(u)
+				if err != nil || b != want[u] {
+					mu.Lock()
+					if bad == "" {
+						bad = fmt.Sprintf("GET %s with 7 other listing requests in flight (nothing being written) answered %.300q (err %v); asked alone it answers %.300q", u, b, err, want[u])
+					}
+					mu.Unlock()
+					return
+				}
+			}
+		}()
+	}
+	wg.Wait()
+	if bad != "" {
+		v.Failf("listing-differs-under-concurrency", "%s", bad)
+	}
+}
+
+func ocispecDesc(mt string, data []byte) ociregistry.Descriptor {
+	return ociregistry.Descriptor{MediaType: mt, Digest: digest.FromBytes(data), Size: int64(len(data))}
 }
